@@ -173,8 +173,14 @@ func (vc *VC) mergeStates(sts []*State) *State {
 		pcs = append(pcs, s.pc)
 	}
 	out.pc = vc.sc.define("pc", sortBool, or(pcs...))
-	// cells: those present in all
-	for c, v0 := range sts[0].cells {
+	// cells: those present in all (deterministic order: names of fresh symbols depend on it)
+	var cellList []*Cell
+	for c := range sts[0].cells {
+		cellList = append(cellList, c)
+	}
+	sort.Slice(cellList, func(i, j int) bool { return cellList[i].id < cellList[j].id })
+	for _, c := range cellList {
+		v0 := sts[0].cells[c]
 		vals := []Val{v0}
 		ok := true
 		for _, s := range sts[1:] {
@@ -190,7 +196,13 @@ func (vc *VC) mergeStates(sts []*State) *State {
 		}
 		out.cells[c] = vc.mergeVals(pcs, vals, c.Name)
 	}
-	for g, v0 := range sts[0].ghost {
+	var ghostList []string
+	for g := range sts[0].ghost {
+		ghostList = append(ghostList, g)
+	}
+	sort.Strings(ghostList)
+	for _, g := range ghostList {
+		v0 := sts[0].ghost[g]
 		vals := []Val{v0}
 		ok := true
 		for _, s := range sts[1:] {
